@@ -1037,6 +1037,63 @@ def function_arguments(ctx, res, binary=None, env=None, sanitizer=False):
                 res.disagreements.append(dict(name='C11/directed:justify-width', case=c.info['e'], impl=got, model=exp))
 
 
+# ------------------------------------------------------------------------------ duplicate UUIDs
+
+def uuid_duplicates(ctx, res, binary=None, env=None, sanitizer=False):
+    """transactions carrying the same `; UUID:` tag: the later one is dropped when its postings are
+    equivalent to the first one's, and refused otherwise (journal.cc add_xact)"""
+    rng = ctx.rng
+    guard = GUARDS.get('uuid_size_test_first')
+    accts = ['a', 'b', 'c', 'd', 'e', 'f', 'g', 'h']
+
+    def xact(posts, uuid='abc', tag_on='xact'):
+        lines = ['2021/01/01 x']
+        if tag_on == 'xact':
+            lines.append('  ; UUID: ' + uuid)
+        for i, (acct, amt) in enumerate(posts):
+            lines.append('  %s  %s' % (acct, amt) if amt is not None else '  ' + acct)
+            if tag_on == 'post' and i == 0:
+                lines.append('    ; UUID: ' + uuid)
+        return '\n'.join(lines) + '\n\n'
+    cases = []
+    for k in (1, 2, 3, 5):
+        first = [(accts[i], '1') for i in range(k)] + [(accts[k], None)]
+        full = [(accts[i], '1') for i in range(k)] + [(accts[k], str(-k))]
+        variants = [('equal', first, 'ok'), ('equal-explicit', full, 'ok'), ('permuted', list(reversed(first)), 'ok'),
+                    ('different-amount', [(first[0][0], '2')] + first[1:], 'error'),
+                    ('different-account', [('zz', '1')] + first[1:], 'error')]
+        if k > 1:
+            variants.append(('fewer', first[1:], 'error'))
+        for extra in (1, 2, 4, 6):
+            more = full + [(accts[(k + 1 + i) % 8] + 'x', '1' if i % 2 == 0 else '-1') for i in range(extra)]
+            if extra % 2:
+                more.append(('rest', '-1'))
+            variants.append(('more-%d' % extra, more, 'error'))
+        for name, second, cls in variants:
+            exp = cls if (guard or not name.startswith('more')) else None
+            j = xact(first) + xact(second)
+            cases.append(Case('uuid-duplicate:' + name.split('-')[0], j, ['bal'] + NOW, info=dict(expect=exp, name=name)))
+            cases.append(Case('uuid-duplicate:' + name.split('-')[0], j, ['print'] + NOW, info=dict(expect=exp, name=name)))
+            # three copies: first, an equal one, then the variant
+            cases.append(Case('uuid-duplicate:' + name.split('-')[0], xact(first) + xact(first) + xact(second), ['reg'] + NOW,
+                              info=dict(expect=exp, name=name)))
+            # a different UUID does not collide
+            cases.append(Case('uuid-distinct', xact(first) + xact(second, uuid='other'), ['bal'] + NOW,
+                              info=dict(expect='ok' if name != 'fewer' or True else None, name=name)))
+    run_cases(ctx, cases, 'uuid', binary, env)
+    for c in cases:
+        res.evaluations += 1
+        res.count('uuid:' + c.info['name'].split('-')[0])
+        add_violations(res, c, judge(c, sanitizer))
+        exp = c.info.get('expect')
+        if exp and not sanitizer:
+            res.traces += 1
+            res.nontrivial.add('uuid:%s:%s' % (c.info['name'], c.args[0]))
+            got = obs_class(c)
+            if got != exp and got != 'timeout' and not got.startswith('signal'):
+                res.disagreements.append(dict(name='C11/directed:' + c.construct, case=c.journal[:300], impl=got, model=exp))
+
+
 # ------------------------------------------------------------------------------ account aliases
 
 def alias_tables(rng, n):
@@ -1509,6 +1566,7 @@ def sanitizer_tier(ctx, res, sites):
         long_tokens(ctx, sub, binary, env, sanitizer=True)
         formats(ctx, sub, binary, env, sanitizer=True)
         aliases(ctx, sub, binary, env, sanitizer=True)
+        uuid_duplicates(ctx, sub, binary, env, sanitizer=True)
         early_options(ctx, sub, binary, env, sanitizer=True)
         periods_s = lib.Result()
         nesting_light(ctx, sub, binary, env)
@@ -1566,7 +1624,7 @@ def run(ctx, light=False):
     phases = [('buffers', lambda: buffers(ctx, res, sites)), ('escapes', lambda: escapes(ctx, res)),
               ('nesting', lambda: nesting(ctx, res)), ('division', lambda: division(ctx, res)),
               ('periods', lambda: periods(ctx, res)), ('truncated', lambda: truncated(ctx, res)),
-              ('long_tokens', lambda: long_tokens(ctx, res)), ('formats', lambda: formats(ctx, res)), ('aliases', lambda: aliases(ctx, res)), ('early_options', lambda: early_options(ctx, res)),
+              ('long_tokens', lambda: long_tokens(ctx, res)), ('formats', lambda: formats(ctx, res)), ('aliases', lambda: aliases(ctx, res)), ('uuid_duplicates', lambda: uuid_duplicates(ctx, res)), ('early_options', lambda: early_options(ctx, res)),
               ('function_arguments', lambda: function_arguments(ctx, res)),
               ('mutation', lambda: mutation(ctx, res, ctx.scale(8000, 16000)))]
     if ctx.tier == 'thorough' and not light:
@@ -1592,6 +1650,7 @@ def search(ctx, broken):
         long_tokens(ctx, r)
         formats(ctx, r)
         aliases(ctx, r)
+        uuid_duplicates(ctx, r)
         early_options(ctx, r)
         function_arguments(ctx, r)
         mutation(ctx, r, 6000, tag='srch')
